@@ -643,7 +643,7 @@ def _regs(n_p, n_e):
     return [("p", i) for i in range(n_p)] + [("e", i) for i in range(n_e)]
 
 
-def _rand_circuit(rng, n_p, n_e, n_ops, kinds, split=False, measured=False, zero=False):
+def _rand_circuit(rng, n_p, n_e, n_ops, kinds, split=False, measured=False, zero=False, cc=True):
     regs = _regs(n_p, n_e)
     ops = []
     nc = 0
@@ -652,7 +652,7 @@ def _rand_circuit(rng, n_p, n_e, n_ops, kinds, split=False, measured=False, zero
         if measured and r < 0.25 and len(regs) >= 2:
             i, j = rng.choice(len(regs), size=2, replace=False)
             (ct, c), (tt, t) = regs[int(i)], regs[int(j)]
-            kind = ["mcr", "ccx", "ccz"][int(rng.integers(3))]
+            kind = ["mcr", "ccx", "ccz"][int(rng.integers(3))] if cc else "mcr"
             ops.append([kind, ct, c, tt, t, nc])
             nc += 1
         elif measured and r < 0.32:
@@ -808,8 +808,41 @@ def _rand_map(rng, kinds, pairs=True):
     return m
 
 
+_FIXED_SEED = 20261002  # inputs drawn from this generator do not depend on VERIF_SEED; they are put FIRST in every item so
+#                          that the first recorded failures of an item (the ones a known finding can name) are the same for
+#                          every seed; the seeded inputs follow
+
+
+def _unitary_pool(rng, nrand, shapes):
+    rand_dl, rand_dlp, rand_split, rand_zero = [], [], [], []
+    for i in range(nrand):
+        n_p, n_e = shapes[int(rng.integers(len(shapes)))]
+        k = int(rng.integers(3, 9))
+        rand_dl.append(_rand_circuit(rng, n_p, n_e, k, ["none", "dep", "loss"]))
+        rand_dlp.append(_rand_circuit(rng, n_p, n_e, k, ["none", "dep", "loss", "pauli"]))
+        if i % 3 == 0:
+            rand_split.append(_rand_circuit(rng, n_p, n_e, k, ["dep", "loss", "pauli", "none"], split=True))
+        if i % 3 == 1:
+            rand_zero.append(_rand_circuit(rng, n_p, n_e, k, ["none", "dep", "loss"], zero=True))
+    return rand_dl, rand_dlp, [c for c in rand_split if _is_split(c)], rand_zero
+
+
+def _measured_pool(rng, count):
+    meas = []
+    for i in range(count):
+        n_p, n_e = [(1, 1), (2, 1), (1, 2)][int(rng.integers(3))]
+        if i % 3 == 2:  # depolarizing only, MeasurementCNOTandReset / MeasurementZ only
+            meas.append(_rand_circuit(rng, n_p, n_e, int(rng.integers(3, 8)), ["none", "dep"], measured=True, cc=False))
+        else:
+            meas.append(_rand_circuit(rng, n_p, n_e, int(rng.integers(3, 9)), ["none", "dep", "loss"], measured=True))
+    return [c for c in meas if any(op[0] in _MEAS for op in c["ops"])]
+
+
 def run(tier, seed):
     rng = np.random.default_rng(seed)
+    frng = np.random.default_rng(_FIXED_SEED)  # channel-level failing class
+    frng_u = np.random.default_rng(_FIXED_SEED + 1)  # unitary circuit pool (thorough pool extends the quick pool)
+    frng_m = np.random.default_rng(_FIXED_SEED + 2)  # measured circuit pool
     thorough = tier == "thorough"
     import graphiq.backends.density_matrix.compiler  # noqa: F401  (import once; forked workers inherit)
     import graphiq.backends.stabilizer.compiler  # noqa: F401
@@ -831,16 +864,17 @@ def run(tier, seed):
                 if model == "dep":
                     reglists += [[a, b] for a in range(n) for b in range(n) if a != b]
                 for regs in reglists:
-                    params = strengths + [float(np.round(rng.random(), 6)) for _ in range(2)] if model != "pauli" else ["X", "Y", "Z", "I"]
+                    r = frng if (model == "pauli" and backend != "dm") else rng
+                    params = strengths + [float(np.round(r.random(), 6)) for _ in range(2)] if model != "pauli" else ["X", "Y", "Z", "I"]
                     for p in params:
-                        for rep in range(3 if thorough else 1):
+                        for rep in range(3 if (thorough and r is rng) else 1):
                             if backend == "dm":
-                                sspec = ["rand", n, int(rng.integers(1, 2**n + 1)), 1, int(rng.integers(1 << 30))]
+                                sspec = ["rand", n, int(r.integers(1, 2**n + 1)), 1, int(r.integers(1 << 30))]
                             else:
-                                nb = int(rng.integers(1, 4))
-                                ws = rng.random(nb) + 0.1
-                                ws = ws / ws.sum() if rng.random() < 0.5 else ws / ws.sum() * 0.7
-                                sspec = [n, [[float(np.round(w, 6)), int(rng.integers(nst))] for w in ws]]
+                                nb = int(r.integers(1, 4))
+                                ws = r.random(nb) + 0.1
+                                ws = ws / ws.sum() if r.random() < 0.5 else ws / ws.sum() * 0.7
+                                sspec = [n, [[float(np.round(w, 6)), int(r.integers(nst))] for w in ws]]
                             cases.append([[model, p, 1], "dm" if backend == "dm" else "s", sspec, regs])
             S.map(f"{cls}.apply.{backend}", cases,
                   nontrivial=lambda c: not (c[0][0] != "pauli" and c[0][1] == 0.0) and not (c[0][0] == "pauli" and c[0][1] == "I"))
@@ -852,70 +886,82 @@ def run(tier, seed):
     structured_pauli = _structured(_PAULI, [(a, b) for a in _PAULI for b in _NONE + _PAULI if b[0] == "none" or a[2] == b[2]])
     split_pairs = [(a, b) for a in _DEP + _LOSS + _PAULI for b in _DEP + _LOSS + _PAULI if a[2] != b[2]]
     structured_split = [c for c in _structured([], split_pairs)]
+    structured_ids = {id(c) for c in structured_dl + structured_pauli + structured_split}
 
-    nrand = 1500 if thorough else 350
+    nrand = 1100 if thorough else 220
     shapes = _shapes(rng) + ([(2, 2), (3, 1)] if thorough else [])
-    rand_dl, rand_dlp, rand_split, rand_zero = [], [], [], []
-    for i in range(nrand):
-        n_p, n_e = shapes[int(rng.integers(len(shapes)))]
-        k = int(rng.integers(3, 9))
-        rand_dl.append(_rand_circuit(rng, n_p, n_e, k, ["none", "dep", "loss"]))
-        rand_dlp.append(_rand_circuit(rng, n_p, n_e, k, ["none", "dep", "loss", "pauli"]))
-        if i % 3 == 0:
-            rand_split.append(_rand_circuit(rng, n_p, n_e, k, ["dep", "loss", "pauli", "none"], split=True))
-        if i % 3 == 1:
-            rand_zero.append(_rand_circuit(rng, n_p, n_e, k, ["none", "dep", "loss"], zero=True))
-    rand_split = [c for c in rand_split if _is_split(c)]
+    fa = _unitary_pool(frng_u, 400 if thorough else 130, _shapes(frng_u))
+    sa = _unitary_pool(rng, nrand, shapes)
+    rand_dl, rand_dlp, rand_split, rand_zero = (fa[i] + sa[i] for i in range(4))
+    fixed_ids = {id(c) for pool in fa for c in pool}  # failing-class items take structured + fixed-pool inputs only
+
+    def det(cs):
+        return [c for c in cs if id(c) in fixed_ids or id(c) in structured_ids]
 
     uniform_all = structured_dl + structured_pauli + rand_dl + [c for c in rand_dlp if not _is_split(c)]
     S.map("compile.dm.physical.uniform_placement", uniform_all, nontrivial=lambda c: any(ns[0] != "none" for ns in _noise_slots(c)))
     split_all = structured_split + rand_split
-    S.map("compile.dm.physical.split_placement", [c for c in split_all if _split_drops_loss(c)])
+    S.map("compile.dm.physical.split_placement", det([c for c in split_all if _split_drops_loss(c)]))
     # split placement where no loss is dropped still has to be physical: goes to the must-pass item
     S.map("compile.dm.physical.uniform_placement", [c for c in split_all if not _split_drops_loss(c)])
 
     agree = structured_dl + rand_dl + [c for c in split_all if not _has(c, "pauli")]
     S.map("compile.backend_agreement.dep_loss", [c for c in agree if not _total_loss(c)],
           nontrivial=lambda c: _has(c, "dep") or _has(c, "loss"))
-    S.map("compile.backend_agreement.total_loss", [c for c in agree if _total_loss(c)])
+    S.map("compile.backend_agreement.total_loss", det([c for c in agree if _total_loss(c)]))
     S.map("compile.backend_agreement.pauli_error", [c for c in structured_pauli][:: 4])
 
     S.map("compile.dm.placement_oracle.uniform_placement", uniform_all, nontrivial=lambda c: any(ns[0] != "none" for ns in _noise_slots(c)))
-    S.map("compile.dm.placement_oracle.split_placement", [c for c in split_all if _split_nontrivial(c)])
+    S.map("compile.dm.placement_oracle.split_placement", det([c for c in split_all if _split_nontrivial(c)]))
     S.map("compile.dm.placement_oracle.uniform_placement", [c for c in split_all if not _split_nontrivial(c)])
 
     # ---------------- measured circuits
-    nm_ = 1500 if thorough else 600
+    # typical emission pattern first: H e; CNOT e->p (noisy); H e; MeasurementCNOTandReset e->p; H p (noisy)
     meas = []
-    for _ in range(nm_):
-        n_p, n_e = [(1, 1), (2, 1), (1, 2)][int(rng.integers(3))]
-        meas.append(_rand_circuit(rng, n_p, n_e, int(rng.integers(3, 9)), ["none", "dep", "loss"], measured=True))
-    meas = [c for c in meas if any(op[0] in _MEAS for op in c["ops"])]
-    # typical emission pattern: H e; CNOT e->p (noisy); ... ; MeasurementCNOTandReset e->p
     for ns in _DEP + _LOSS:
         meas.append({"np": 1, "ne": 1, "nc": 1, "ops": [["g", "H", "e", 0, ["none"]], ["cx", "e", 0, "p", 0, [["none"], ns]],
                                                        ["g", "H", "e", 0, ["none"]], ["mcr", "e", 0, "p", 0, 0], ["g", "H", "p", 0, ns]]})
         meas.append({"np": 1, "ne": 1, "nc": 1, "ops": [["g", "H", "e", 0, ["none"]], ["cx", "e", 0, "p", 0, [["none"], ["none"]]],
                                                        ["g", "H", "e", 0, ["none"]], ["mcr", "e", 0, "p", 0, 0], ["g", "H", "p", 0, ns]]})
+        for kind in ("ccx", "ccz"):
+            meas.append({"np": 1, "ne": 1, "nc": 1, "ops": [["g", "H", "e", 0, ["none"]], [kind, "e", 0, "p", 0, 0], ["g", "H", "p", 0, ns]]})
+            meas.append({"np": 1, "ne": 1, "nc": 1, "ops": [["g", "H", "e", 0, ["none"]], ["cx", "e", 0, "p", 0, [["none"], ["none"]]],
+                                                           [kind, "p", 0, "e", 0, 0], ["g", "H", "e", 0, ns]]})
+    # smallest case of noise in front of a measurement: a depolarized emitter is measured and reset
+    for g in ("X", "H", "I"):
+        for pdep in (0.25, 0.75, 1.0):
+            for a in (0, 1):
+                meas.append({"np": 1, "ne": 1, "nc": 1, "ops": [["g", g, "e", 0, ["dep", pdep, a]], ["mcr", "e", 0, "p", 0, 0]]})
+                meas.append({"np": 1, "ne": 1, "nc": 1, "ops": [["g", g, "e", 0, ["dep", pdep, a]], ["cx", "e", 0, "p", 0, [["none"], ["none"]]],
+                                                               ["mz", "e", 0, 0]]})
+    structured_ids |= {id(c) for c in meas}
+    fmeas = _measured_pool(frng_m, 500 if thorough else 250)
+    fixed_ids |= {id(c) for c in fmeas}
+    meas += fmeas + _measured_pool(rng, 1000 if thorough else 350)
     before = [(c, _noise_before_measurement(c)) for c in meas]
     S.map("compile.measured.physical.no_loss_before_measurement", [c for c, k in before if "loss" not in k])
-    S.map("compile.measured.physical.loss_before_measurement", [c for c, k in before if "loss" in k])
+    S.map("compile.measured.physical.loss_before_measurement", det([c for c, k in before if "loss" in k]))
     S.map("compile.measured.agreement.noise_after_measurements", [c for c, k in before if not k and not _has_cc(c) and not _total_loss(c)])
     S.map("compile.measured.agreement.depolarizing_before_measurement",
-          [c for c, k in before if k == {"dep"} and not _has_cc(c) and not _total_loss(c)])
-    S.map("compile.measured.agreement.classical_controlled", [c for c, k in before if not k and _has_cc(c)])
+          det([c for c, k in before if k == {"dep"} and not _has_cc(c) and not _total_loss(c)]))
+    S.map("compile.measured.agreement.classical_controlled", det([c for c, k in before if not k and _has_cc(c)]))
 
     # ---------------- switchability
     off = structured_dl[:: 5] + structured_pauli[:: 5] + structured_split[:: 9] + rand_dlp + rand_split + meas
     S.map("compile.switched_off", off, nontrivial=lambda c: any(ns[0] != "none" for ns in _noise_slots(c)))
     zero_structured = [c for c in structured_dl if all(ns[0] == "none" or ns[1] == 0.0 for ns in _noise_slots(c))]
-    zero_meas = [_zeroed(c) for c in meas[:: 3]]
+    zero_meas = []
+    for c in meas[:: 3]:
+        z = _zeroed(c)
+        zero_meas.append(z)
+        if id(c) in fixed_ids or id(c) in structured_ids:
+            fixed_ids.add(id(z))
     zs = zero_structured + rand_zero + zero_meas
     S.map("compile.zero_strength", [c for c in zs if not _has_cc(c)], nontrivial=lambda c: any(ns[0] != "none" for ns in _noise_slots(c)))
-    S.map("compile.zero_strength.classical_controlled", [c for c in zs if _has_cc(c)])
+    S.map("compile.zero_strength.classical_controlled", det([c for c in zs if _has_cc(c)]))
     em = [c for c in rand_zero] + zero_meas[:: 2] + zero_structured[:: 6]
     S.map("compile.empty_noise_map", [c for c in em if not _has_cc(c)])
-    S.map("compile.empty_noise_map.classical_controlled", [c for c in em if _has_cc(c)])
+    S.map("compile.empty_noise_map.classical_controlled", det([c for c in em if _has_cc(c)]))
 
     # ---------------- noise maps
     nmap = 900 if thorough else 250
